@@ -5,7 +5,7 @@ From Helm Require Import Common.Assoc Common.Strs Storage.Spec Storage.Mem Stora
   Storage.Proofs Storage.Refine Storage.MemProofs Storage.KubeProofs Storage.Corollaries
   Storage.Examples Storage.Tables Storage.Rmw Storage.MemNs Storage.MemNsProofs Storage.KubeX Storage.KubeXProofs Storage.KubeLabels
   Storage.Calls Storage.LabelsAll Storage.AllProofs Storage.AllExamples Storage.Base64 Storage.Base64Proofs
-  Storage.Codec Storage.CodecProofs Storage.CodecTables Storage.AllBytes Storage.Order Storage.OrderEngine
+  Storage.Codec Storage.CodecProofs Storage.GuardExpr Storage.CodecTables Storage.AllBytes Storage.Order Storage.OrderEngine
   Gen.SystemLabels Gen.CodecConsts.
 From Helm Require Engine.Types Engine.Ops.
 Import ListNotations.
@@ -484,12 +484,24 @@ Example C10_codec_hypotheses_ex :
 Proof. exact toy_gzip_ok. Qed.
 Print Assumptions C10_codec_hypotheses_ex.
 
-(* regenerated from pkg/storage/driver/util.go on every run *)
+(* regenerated from pkg/storage/driver on every run (Gen/CodecConsts.v): the encodings
+   encodeRelease / decodeRelease use, the magic number, and the guard that decides about gunzip
+   as a boolean expression [magic_guard] over "len(b) compared with a constant" and "b[lo:hi]
+   equals the magic number", with [magic_guard_positive] saying whether the guarded branch is
+   the one that gunzips or the early return that does not *)
 Theorem C10_codec_consts_table :
-  magic_gzip = magic_gzip_bytes /\ b64_encoding = "base64.StdEncoding" /\
-  magic_len_test = (">", 3) /\ magic_slice = (0, 3).
+  (b64_encoding, b64_decoding) = ("base64.StdEncoding", "base64.StdEncoding") /\
+  magic_gzip = magic_gzip_bytes /\ gunknowns magic_guard = [].
 Proof. exact codec_consts_table. Qed.
 Print Assumptions C10_codec_consts_table.
+
+(* the guard of the source is EQUIVALENT to the model's dispatch condition: for every byte
+   string, the source gunzips exactly when [has_gzip_magic] holds - however the condition is
+   written (len(b) > 3, !(len(b) <= 3), len(b) >= 4, negated for an early return, ...) *)
+Theorem C10_magic_guard_is_model : forall b : string,
+  gunzip_taken magic_guard_positive magic_guard (String.length b) (starts_magic b) = has_gzip_magic b.
+Proof. exact magic_guard_is_model. Qed.
+Print Assumptions C10_magic_guard_is_model.
 
 (* ---------- the refinement statements on the byte-level codec ---------- *)
 Theorem C10_all_backends_refine_spec_bytes :
